@@ -25,6 +25,8 @@ pub enum Entry {
     CasWriterSync,
     HttpCas { chunk: Option<u16> },
     HttpAppend { chunk: Option<u16> },
+    /// POST /{topic} with Content-Length, the body written in two parts with a pause
+    HttpAppendSplit { at_pct: u8 },
     /// Store::append with content placed by cas_insert_sync first (what nu's .append does)
     ApiAppend,
 }
@@ -61,6 +63,7 @@ fn entry() -> BoxedStrategy<Entry> {
         1 => Just(Entry::CasWriterSync),
         3 => chunk().prop_map(|chunk| Entry::HttpCas { chunk }),
         5 => chunk().prop_map(|chunk| Entry::HttpAppend { chunk }),
+        3 => (1u8..100).prop_map(|at_pct| Entry::HttpAppendSplit { at_pct }),
         2 => Just(Entry::ApiAppend),
     ]
     .boxed()
@@ -222,7 +225,12 @@ pub fn run_case(case: &C10Case) -> Result<CaseInfo, Fail> {
                 HOut::Infra(e) => return Err(infra(format!("connect: {e}"))),
                 other => return Err(Fail::new(Class::Http, format!("{what}: POST /cas answered {other:?}"))),
             },
-            Entry::HttpAppend { chunk } => {
+            Entry::HttpAppend { .. } | Entry::HttpAppendSplit { .. } => {
+                let (chunk, split_at) = match item.entry {
+                    Entry::HttpAppend { chunk } => (chunk, None),
+                    Entry::HttpAppendSplit { at_pct } => (None, Some((bytes.len() * at_pct as usize / 100).max(1))),
+                    _ => unreachable!(),
+                };
                 let spec = FrameSpec {
                     topic: format!("c{i}"),
                     ctx: ZERO,
@@ -234,6 +242,7 @@ pub fn run_case(case: &C10Case) -> Result<CaseInfo, Fail> {
                 let how = httpx::AppendHow {
                     chunked: chunk.map(|n| n as usize),
                     explicit_zero_ctx: false,
+                    split_at,
                 };
                 match httpx::append(&c.sock, &spec, Some(&bytes), &how) {
                     HOut::Ok(f) => {
@@ -421,7 +430,7 @@ pub fn run(tier: Tier, seed: u64, replay: Option<&std::path::Path>) -> i32 {
         tier,
         seed,
         level: "exploration",
-        rule: "1..7 byte strings per case (empty, 1 byte, random, ASCII, invalid UTF-8, 8191/8192/8193, 16 KiB, 64 KiB+1, 300 KiB) each written through a generated entry point (cas_insert, cas_insert_sync, cas_writer, cas_writer_sync, POST /cas and POST /{topic} with Content-Length or chunked bodies of several chunk sizes, Store::append after cas_insert_sync) and read back through another path (cas_read, cas_read_sync, GET /cas/{hash}), optional kill+reopen in between; a follower opened before the writes reads the content of every frame the instant it is delivered (appender optionally held after its broadcast via the verif sync point). Oracle: reported hash == SHA-256 computed by the harness, read-back bytes identical, empty HTTP body => frame without hash, POST /cas empty => 400. Non-trivial = content that is not valid UTF-8 or longer than 8 KiB. Distinct by (entry, read path, size) sequence hash.",
+        rule: "1..7 byte strings per case (empty, 1 byte, random, ASCII, invalid UTF-8, 8191/8192/8193, 16 KiB, 64 KiB+1, 300 KiB) each written through a generated entry point (cas_insert, cas_insert_sync, cas_writer, cas_writer_sync, POST /cas and POST /{topic} with Content-Length or chunked bodies of several chunk sizes or a Content-Length body written in two parts with a pause, Store::append after cas_insert_sync) and read back through another path (cas_read, cas_read_sync, GET /cas/{hash}), optional kill+reopen in between; a follower opened before the writes reads the content of every frame the instant it is delivered (appender optionally held after its broadcast via the verif sync point). Oracle: reported hash == SHA-256 computed by the harness, read-back bytes identical, empty HTTP body => frame without hash, POST /cas empty => 400. Non-trivial = content that is not valid UTF-8 or longer than 8 KiB. Distinct by (entry, read path, size) sequence hash.",
         assumptions: vec![
             "nu entry points (.append in handlers/commands, handler return values, command and generator output) are exercised by the C15/C18/C19 checks, which verify content against the CAS for every frame they produce".into(),
             "content durability under crash is the C04 check".into(),
